@@ -185,7 +185,7 @@ static std::vector<int> parse_sched(const std::string &d)
     return v;
 }
 
-enum { K_EXEC, K_POINTS, K_STATES, K_PRUNED, K_BEYOND, K_LATE, K_HANDOFF, K_PRIVATE, K_MAXPTS, K_INCOMPLETE, K_FINALS };
+enum { K_EXEC, K_POINTS, K_STATES, K_PRUNED, K_BEYOND, K_LATE, K_HANDOFF, K_PRIVATE, K_MAXPTS, K_INCOMPLETE, K_FINALS, K_FULL };
 
 int main(int argc, char **argv)
 {
@@ -211,13 +211,13 @@ int main(int argc, char **argv)
     cs.counter_names = {"executions(schedules)", "scheduling_points", "distinct_states", "pruned_state_revisits",
                         "alternatives_beyond_preemption_bound", "late_shared_atomics(harness note)", "thread_handoffs",
                         "thread_private_atomic_ops(not scheduling points)", "max_points_in_one_execution", "scenarios_cut_by_deadline",
-                        "distinct_final_states"};
+                        "distinct_final_states", "scenarios_with_ALL_interleavings_explored"};
     cs.desc = [&](long long i) { return "scenario=" + S[i].name; };
     cs.crash_sig = [&](long long i, const std::string &oc) { return "crash-under-scheduler:" + S[i].name + ":" + oc; };
     double deadline = vsched::now_s() + opts().deadline_s * 0.8;
     cs.body = [&](long long i, Ctx &c) {
         vsched::Harness h = make_harness(S[i]);
-        int bound = S[i].ops.size() > 2 ? 2 : -1;
+        int bound = -1;
         if (replaying()) {
             std::vector<int> sch = parse_sched(replay_desc);
             std::string what;
@@ -234,8 +234,48 @@ int main(int argc, char **argv)
             c.violation("harness-error:" + S[i].name, "sequential run violates the oracle: " + w0);
             return;
         }
+        // iterative context bounding: preemption bounds 0,1,2,... each run to completion; then, for harnesses short
+        // enough, ALL interleavings (state-memoised).  The evidence reports the highest bound completed per scenario.
         std::vector<vsched::Found> found;
-        vsched::Stats st = vsched::explore(h, bound, deadline, found, 3);
+        vsched::Stats st;
+        bool three = S[i].ops.size() > 2;
+        int maxb = thorough ? (three ? 2 : 3) : (three ? 1 : 2);
+        int completed = -1;
+        bool full = false;
+        uint64_t seq_points = 0;
+        for (int b = 0; b <= maxb + 1 && found.empty(); b++) {
+            bool unbounded = b == maxb + 1;
+            if (unbounded && (three || seq_points > (thorough ? 64u : 40u)))
+                break; // long harness: stay with the completed preemption bound
+            std::vector<vsched::Found> f2;
+            vsched::Stats s2 = vsched::explore(h, unbounded ? -1 : b, deadline, f2, 3);
+            if (b == 0) {
+                seq_points = s2.max_points;
+                if (seq_points > 100 && !three)
+                    maxb = thorough ? 2 : 1; // long harness: one preemption bound less
+            }
+            st.executions += s2.executions;
+            st.points += s2.points;
+            st.states += s2.states;
+            st.pruned_revisits += s2.pruned_revisits;
+            st.alternatives_beyond_bound = s2.alternatives_beyond_bound;
+            st.late_shared += s2.late_shared;
+            st.handoffs += s2.handoffs;
+            st.private_ops += s2.private_ops;
+            st.max_points = std::max(st.max_points, s2.max_points);
+            st.distinct_final_states = std::max(st.distinct_final_states, s2.distinct_final_states);
+            st.diverged |= s2.diverged;
+            found = f2;
+            if (!s2.complete) {
+                st.complete = false;
+                break;
+            }
+            if (unbounded)
+                full = true;
+            else
+                completed = b;
+        }
+        bound = full ? -1 : completed;
         c.eval(st.executions);
         c.nontrivial(st.states);
         c.count(K_EXEC, st.executions);
@@ -251,6 +291,8 @@ int main(int argc, char **argv)
             c.sh->cnt[K_MAXPTS] = st.max_points;
         if (!st.complete && found.empty())
             c.count(K_INCOMPLETE);
+        if (full)
+            c.count(K_FULL);
         if (st.diverged) {
             fprintf(stderr, "C41: replay divergence in %s (machinery error)\n", S[i].name.c_str());
             _exit(2);
@@ -264,7 +306,7 @@ int main(int argc, char **argv)
         }
         c.outcome(S[i].name + ":" + (found.empty() ? "ok" : "violation"));
         c.sample("{\"scenario\":" + jstr(S[i].name) + ",\"threads\":" + std::to_string(S[i].ops.size()) + ",\"preemption_bound\":"
-                 + (bound < 0 ? std::string("\"unbounded (all interleavings, state-memoised)\"") : std::to_string(bound))
+                 + (full ? std::string("\"unbounded: all interleavings (state-memoised), after bounds 0.." + std::to_string(maxb) + "\"") : std::to_string(bound))
                  + ",\"executions\":" + std::to_string(st.executions) + ",\"scheduling_points_max\":" + std::to_string(st.max_points)
                  + ",\"distinct_states\":" + std::to_string(st.states) + ",\"distinct_final_states\":" + std::to_string(st.distinct_final_states)
                  + ",\"complete\":" + (st.complete ? "true" : "false") + "}");
@@ -317,8 +359,9 @@ int main(int argc, char **argv)
     R.transitions = R.counters["scheduling_points"];
     if (R.counters["scenarios_cut_by_deadline"])
         R.exhaustive = false;
-    R.bound_completed = std::to_string(S.size()) + " closed harnesses; 2-thread harnesses: all interleavings at atomic-operation granularity "
-                        "(state-memoised DFS); 3-thread harnesses: preemption bound 2";
+    R.bound_completed = std::to_string(S.size()) + " closed harnesses, iterative preemption bounding 0..k run to completion per harness (k=2 quick / 3 "
+                        "thorough for 2 threads, 1 / 2 for 3 threads); harnesses with <= 40 (quick) / 64 (thorough) scheduling points additionally: ALL "
+                        "interleavings (" + std::to_string(R.counters["scenarios_with_ALL_interleavings_explored"]) + " harnesses); per-harness bounds in samples";
     R.rule = "scheduling point = every std::atomic operation of the real thread-safe library on an object visible to more than one thread "
              "(every atomic is hooked through a forced-include rename; atomics born by the running worker during the execution are private and "
              "commute). evaluations = complete executions (schedules) run on the real code; distinct_nontrivial = distinct (thread-local "
